@@ -81,12 +81,12 @@ type MyFlt float64
 // Status has a value-receiver String method.
 type Status int
 
-func (s Status) String() string { tr.Hit("ext.Status.String"); return "S" + tr.Itoa(int(s)) }
+func (s Status) String() string { tr.Hit("m:ext.Status.String"); return "S" + tr.Itoa(int(s)) }
 
 // PStatus has a pointer-receiver String method.
 type PStatus int
 
-func (s *PStatus) String() string { tr.Hit("ext.PStatus.String"); return "PS" + tr.Itoa(int(*s)) }
+func (s *PStatus) String() string { tr.Hit("m:ext.PStatus.String"); return "PS" + tr.Itoa(int(*s)) }
 
 type Inner struct {
 	A int
@@ -95,10 +95,10 @@ type Inner struct {
 	D MyInt
 }
 
-func (i Inner) C() int          { tr.Hit("ext.Inner.C"); return i.c }
-func (i *Inner) PB() string     { tr.Hit("ext.Inner.PB"); return i.B }
-func (i Inner) hid() int        { tr.Hit("ext.Inner.hid"); return i.c }
-func (i Inner) E() (int, error) { err := tr.HitE("ext.Inner.E"); return i.A, err }
+func (i Inner) C() int          { tr.Hit("m:ext.Inner.C"); return i.c }
+func (i *Inner) PB() string     { tr.Hit("m:ext.Inner.PB"); return i.B }
+func (i Inner) hid() int        { tr.Hit("m:ext.Inner.hid"); return i.c }
+func (i Inner) E() (int, error) { err := tr.HitE("m:ext.Inner.E"); return i.A, err }
 
 // SetC lets other packages fill the unexported member.
 func (i *Inner) SetC(v int) { i.c = v }
@@ -144,8 +144,8 @@ type Cat struct {
 	id   int
 }
 
-func (c Cat) ID() int        { tr.Hit("ext.Cat.ID"); return c.id }
-func (c *Cat) PName() string { tr.Hit("ext.Cat.PName"); return c.Name }
+func (c Cat) ID() int        { tr.Hit("m:ext.Cat.ID"); return c.id }
+func (c *Cat) PName() string { tr.Hit("m:ext.Cat.PName"); return c.Name }
 
 func IntToStr(i int) string         { tr.Hit("ext.IntToStr"); return "i" + tr.Itoa(i) }
 func StrLen(s string) int           { tr.Hit("ext.StrLen"); return len(s) }
@@ -232,11 +232,11 @@ type LFlt float64
 
 type LStatus int
 
-func (s LStatus) String() string { tr.Hit("LStatus.String"); return "L" + tr.Itoa(int(s)) }
+func (s LStatus) String() string { tr.Hit("m:LStatus.String"); return "L" + tr.Itoa(int(s)) }
 
 type LPStatus int
 
-func (s *LPStatus) String() string { tr.Hit("LPStatus.String"); return "LP" + tr.Itoa(int(*s)) }
+func (s *LPStatus) String() string { tr.Hit("m:LPStatus.String"); return "LP" + tr.Itoa(int(*s)) }
 
 type LInner struct {
 	A int
@@ -245,9 +245,9 @@ type LInner struct {
 	D LInt
 }
 
-func (i LInner) C() int          { tr.Hit("LInner.C"); return i.c }
-func (i *LInner) PB() string     { tr.Hit("LInner.PB"); return i.B }
-func (i LInner) E() (int, error) { err := tr.HitE("LInner.E"); return i.A, err }
+func (i LInner) C() int          { tr.Hit("m:LInner.C"); return i.c }
+func (i *LInner) PB() string     { tr.Hit("m:LInner.PB"); return i.B }
+func (i LInner) E() (int, error) { err := tr.HitE("m:LInner.E"); return i.A, err }
 
 type LInner2 struct {
 	A int64
@@ -327,6 +327,15 @@ var Alphabet = []TypeAtom{
 	{"[]ext.Inner", "[]Inner", "slice-struct"},
 	{"[]interface{}", "[]interface{}", "slice-interface"},
 	{"[]LStringer", "", "slice-interface"},
+	{"[]*int", "[]*int", "slice-pointer"},
+	{"[]*LInt", "", "slice-pointer"},
+	{"[]bool", "[]bool", "slice-basic"},
+	{"[]float64", "[]float64", "slice-basic"},
+	{"[]LStr", "", "slice-named"},
+	{"[]LInner2", "", "slice-struct"},
+	{"[][]int", "[][]int", "slice-slice"},
+	{"[]error", "[]error", "slice-interface"},
+	{"[]map[string]int", "[]map[string]int", "slice-map"},
 	{"LIDs", "", "slice-named-type"},
 	{"ext.IDs", "IDs", "slice-named-type"},
 	{"[]byte", "[]byte", "slice-basic"},
